@@ -6,6 +6,8 @@
  *   c03_wf one <file> <mutseed> <smpctl> <via 0 mem|1 path|2 FILE|3 callbacks> <tmpdir> [<otherfile>]   one variant (replay)
  *   c03_wf emit <file> <mutseed> [<otherfile>]       print the variant's bytes as hex
  *   c03_wf hdr <mod|s3m|xm|it> <tmpdir> <file>...    each file once through that ONE format loader (header tie)
+ *   c03_wf mt <iters> <maxpairs> <file>...           pairs of modules loaded concurrently in two threads, each load
+ *                                                    compared with the dump of the module loaded alone
  *
  * Every variant is a deterministic function of (file bytes, other file bytes, mutseed);
  * mutseed 0 is the intact file.  Output per successful load:
@@ -129,8 +131,9 @@ static const char *tmpdir = "/tmp";
  *   4..8  the tail cut off (1/8, 1/4, 1/2 of the file, 16 bytes, 1000 bytes): sample data with
  *         loops reaching beyond the cut
  *   9  MOD family: restart byte = song length
- *   10 MDL: the name of the first sample (IS chunk) filled with 32 non-blank characters */
-#define NSPECIAL 10
+ *   10 MDL: the name of the first sample (IS chunk) filled with 32 non-blank characters
+ *   11 Galaxy 5 (RIFF AM, "AI  INST" chunks): the sample count of the first instrument that has one = 3 */
+#define NSPECIAL 11
 static unsigned char *special_mutant(const unsigned char *src, long n, int which, long *outn, char *kind)
 {
 	unsigned char *b;
@@ -185,6 +188,25 @@ static unsigned char *special_mutant(const unsigned char *src, long n, int which
 		strcpy(kind, "mod-restart");
 		*outn = n;
 		return b;
+	}
+	if (which == 11) {
+		long o;
+		if (n < 400 || memcmp(src, "RIFF", 4) || memcmp(src + 8, "AM  ", 4))
+			return NULL;
+		for (o = 12; o + 12 + 326 <= n; o++) {
+			if (!memcmp(src + o, "AI  INST", 8)) {
+				long at = o + 12 + 324;		/* chunk size, then 324 bytes of header / maps / envelopes */
+				if ((src[at] | (src[at + 1] << 8)) != 1)
+					continue;
+				b = (unsigned char *)malloc(n);
+				memcpy(b, src, n);
+				b[at] = 3;
+				strcpy(kind, "gal5-nsm3");
+				*outn = n;
+				return b;
+			}
+		}
+		return NULL;
 	}
 	if (which == 10) {
 		long o = 5;
@@ -531,8 +553,125 @@ static int run_variant(const char *file, const unsigned char *bytes, long n, uin
 	return rc;
 }
 
+/* ---- two contexts loading concurrently -------------------------------- */
+#include <pthread.h>
+
+struct mt_job {
+	const unsigned char *bytes; long n;
+	const char *ref; size_t reflen;
+	int iters, mismatches, loads, badrc;
+	char first[200];
+	pthread_barrier_t *bar;
+};
+
+static char *mt_dump(const unsigned char *bytes, long n, size_t *len, int *rc, int *nseq)
+{
+	xmp_context opaque = xmp_create_context();
+	struct context_data *ctx = (struct context_data *)opaque;
+	char *buf = NULL;
+	*len = 0;
+	*rc = xmp_load_module_from_memory(opaque, bytes, n);
+	if (*rc == 0) {
+		FILE *o = open_memstream(&buf, len);
+		c03_dump(o, ctx, NULL);
+		fclose(o);
+		if (nseq) *nseq = ctx->m.num_sequences;
+		xmp_release_module(opaque);
+	}
+	xmp_free_context(opaque);
+	return buf;
+}
+
+static void *mt_thread(void *arg)
+{
+	struct mt_job *j = (struct mt_job *)arg;
+	int k;
+	for (k = 0; k < j->iters; k++) {
+		size_t len;
+		int rc;
+		char *d;
+		pthread_barrier_wait(j->bar);
+		d = mt_dump(j->bytes, j->n, &len, &rc, NULL);
+		j->loads++;
+		if (rc != 0) {
+			j->badrc++;
+		} else if (len != j->reflen || memcmp(d, j->ref, len)) {
+			if (j->mismatches++ == 0) {
+				size_t a = 0, b;
+				while (a < len && a < j->reflen && d[a] == j->ref[a]) a++;
+				while (a > 0 && d[a - 1] != '\n') a--;
+				for (b = 0; b < sizeof(j->first) - 1 && a + b < len && d[a + b] != '\n'; b++)
+					j->first[b] = d[a + b];
+				j->first[b] = 0;
+			}
+		}
+		free(d);
+	}
+	return NULL;
+}
+
+/* c03_wf mt <iters> <maxpairs> <file>...: every module that loads (those with several sequences first) is loaded
+ * again and again while another module is being loaded in a second thread; each concurrent load must produce
+ * exactly the dump of the module loaded alone. */
+static int mt_main(int argc, char **argv)
+{
+	int iters = atoi(argv[2]), maxpairs = atoi(argv[3]);
+	int nf = argc - 4, i, np = 0, pairs = 0;
+	struct { const char *file; unsigned char *b; long n; char *ref; size_t reflen; int nseq; } *c;
+	c = calloc(nf > 0 ? nf : 1, sizeof(*c));
+	for (i = 0; i < nf; i++) {
+		long n;
+		int rc, nseq = 0;
+		size_t len;
+		unsigned char *b = read_file(argv[4 + i], &n);
+		char *d;
+		if (!b || n <= 0)
+			continue;
+		d = mt_dump(b, n, &len, &rc, &nseq);
+		if (rc != 0) {
+			free(b);
+			continue;
+		}
+		c[np].file = argv[4 + i]; c[np].b = b; c[np].n = n; c[np].ref = d; c[np].reflen = len; c[np].nseq = nseq;
+		np++;
+	}
+	/* modules with several sequences first */
+	for (i = 0; i < np; i++) {
+		int k;
+		for (k = i + 1; k < np; k++) {
+			if (c[k].nseq > c[i].nseq) {
+				typeof(c[0]) t = c[i]; c[i] = c[k]; c[k] = t;
+			}
+		}
+	}
+	for (i = 0; i + 1 < np && pairs < maxpairs; i += 2, pairs++) {
+		pthread_barrier_t bar;
+		pthread_t th[2];
+		struct mt_job j[2];
+		int k;
+		pthread_barrier_init(&bar, NULL, 2);
+		for (k = 0; k < 2; k++) {
+			memset(&j[k], 0, sizeof(j[k]));
+			j[k].bytes = c[i + k].b; j[k].n = c[i + k].n; j[k].ref = c[i + k].ref; j[k].reflen = c[i + k].reflen;
+			j[k].iters = iters; j[k].bar = &bar;
+			pthread_create(&th[k], NULL, mt_thread, &j[k]);
+		}
+		for (k = 0; k < 2; k++)
+			pthread_join(th[k], NULL);
+		pthread_barrier_destroy(&bar);
+		for (k = 0; k < 2; k++) {
+			printf("mt file=%s other=%s nseq=%d loads=%d badrc=%d mismatch=%d first=[%s]\n", enc(c[i + k].file),
+			       enc(c[i + 1 - k].file), c[i + k].nseq, j[k].loads, j[k].badrc, j[k].mismatches, j[k].first);
+		}
+	}
+	printf("mt-done candidates=%d pairs=%d\n", np, pairs);
+	return 0;
+}
+
 int main(int argc, char **argv)
 {
+	if (argc >= 5 && !strcmp(argv[1], "mt"))
+		return mt_main(argc, argv);
 	if (argc >= 4 && !strcmp(argv[1], "emit")) {
 		long n, on = 0, m;
 		unsigned char *src = read_file(argv[2], &n), *oth = NULL, *b;
